@@ -125,7 +125,7 @@ fn finish(mut child: Child, shared: Arc<Shared>, reader: std::thread::JoinHandle
 
 /// Slow client: everything is written in one go (from a thread of its own, the pipe to the
 /// server may fill up as well), stdin is closed, and the output is read only after `delay`.
-pub fn run_slow_reader(bytes: Vec<u8>, delay: Duration, throttle: Option<(usize, Duration)>, limit: Duration) -> ProcOutcome {
+fn run_slow_reader_once(bytes: Vec<u8>, delay: Duration, throttle: Option<(usize, Duration)>, limit: Duration) -> ProcOutcome {
     let mut o = ProcOutcome::default();
     let Ok((mut child, shared, reader)) = spawn_delayed(delay, throttle) else {
         o.frame_error = Some("cannot spawn the binary".into());
@@ -143,7 +143,7 @@ pub fn run_slow_reader(bytes: Vec<u8>, delay: Duration, throttle: Option<(usize,
 
 /// Lock-step client: every request is followed by a wait for its response; after the last
 /// message stdin is closed. `limit`: time allowed between closing stdin and process exit.
-pub fn run_lockstep(msgs: &[Value], limit: Duration) -> ProcOutcome {
+fn run_lockstep_once(msgs: &[Value], limit: Duration, per_request: Duration) -> ProcOutcome {
     let mut o = ProcOutcome::default();
     let Ok((mut child, shared, reader)) = spawn() else {
         o.frame_error = Some("cannot spawn the binary".into());
@@ -157,7 +157,7 @@ pub fn run_lockstep(msgs: &[Value], limit: Duration) -> ProcOutcome {
         o.written = i + 1;
         if let (Some(id), Some(_)) = (m.get("id").and_then(|i| i.as_i64()), m.get("method")) {
             let want = msgs[..=i].iter().filter(|x| x.get("method").is_some() && x.get("id").and_then(|v| v.as_i64()) == Some(id)).count();
-            let deadline = Instant::now() + Duration::from_secs(5);
+            let deadline = Instant::now() + per_request;
             let mut g = shared.buf.lock().unwrap();
             loop {
                 if count_responses(&g.0, id) >= want || g.1 {
@@ -175,7 +175,7 @@ pub fn run_lockstep(msgs: &[Value], limit: Duration) -> ProcOutcome {
             }
         } else if m.get("method").and_then(|v| v.as_str()) == Some("exit") {
             // give the process the chance to act on exit before more input is written
-            let deadline = Instant::now() + Duration::from_secs(5);
+            let deadline = Instant::now() + per_request;
             while Instant::now() < deadline {
                 if let Ok(Some(_)) = child.try_wait() {
                     break;
@@ -190,7 +190,7 @@ pub fn run_lockstep(msgs: &[Value], limit: Duration) -> ProcOutcome {
 
 /// Pipelined client: writes the chunks one after the other (optionally waiting until the pipe
 /// has been drained by the server between chunks), then closes stdin.
-pub fn run_chunks(chunks: &[Vec<u8>], wait_drained: bool, limit: Duration) -> ProcOutcome {
+fn run_chunks_once(chunks: &[Vec<u8>], wait_drained: bool, limit: Duration, per_request: Duration) -> ProcOutcome {
     use std::os::unix::io::AsRawFd;
     let mut o = ProcOutcome::default();
     let Ok((mut child, shared, reader)) = spawn() else {
@@ -205,7 +205,7 @@ pub fn run_chunks(chunks: &[Vec<u8>], wait_drained: bool, limit: Duration) -> Pr
         }
         o.written = i + 1;
         if wait_drained {
-            let deadline = Instant::now() + Duration::from_secs(5);
+            let deadline = Instant::now() + per_request;
             loop {
                 let mut n: libc::c_int = 0;
                 let r = unsafe { libc::ioctl(fd, libc::FIONREAD, &mut n) };
@@ -220,4 +220,84 @@ pub fn run_chunks(chunks: &[Vec<u8>], wait_drained: bool, limit: Duration) -> Pr
     }
     drop(stdin);
     finish(child, shared, reader, limit, o)
+}
+
+// ------------------------------------------------------------------------------------------
+// Wall-clock limits are the only way to see that a separate process hangs, and wall-clock time
+// is the one thing the harness does not own: on an over-subscribed machine a healthy server can
+// miss a limit. A run that misses one is therefore repeated *alone* (every other process-driven
+// case of this check waits meanwhile) with CONFIRM_FACTOR times the limits, and only the
+// outcome of that run is reported. A server that really hangs misses the longer limits as
+// well; after CONFIRMED_ENOUGH confirmed hangs further ones are believed at once, so that a
+// tree with many hanging cases does not serialise the whole check.
+// ------------------------------------------------------------------------------------------
+static GATE: std::sync::RwLock<()> = std::sync::RwLock::new(());
+static CONFIRMED: std::sync::atomic::AtomicUsize = std::sync::atomic::AtomicUsize::new(0);
+static REPEATED: std::sync::atomic::AtomicUsize = std::sync::atomic::AtomicUsize::new(0);
+const CONFIRM_FACTOR: u32 = 6;
+const CONFIRMED_ENOUGH: usize = 3;
+/// Once that many runs have hung, the check stops with a `hang` violation for the run at hand
+/// instead of waiting out the limits of thousands of further cases (a server that never
+/// exits would otherwise keep a check busy for hours before it reports anything).
+const HANG_STORM: usize = 12;
+static HUNG: std::sync::atomic::AtomicUsize = std::sync::atomic::AtomicUsize::new(0);
+
+fn count_hang(o: &ProcOutcome, describe: &dyn Fn() -> Value) {
+    use std::sync::atomic::Ordering::Relaxed;
+    if HUNG.fetch_add(1, Relaxed) + 1 >= HANG_STORM {
+        let property = crate::common::current_property();
+        let what = if o.timed_out { "the process did not end within the limit after its input was closed".to_string() } else { format!("message #{} got no response within the limit", o.unanswered.unwrap_or(0)) };
+        let detail = format!("{} process runs of this check hung (each confirmed alone with longer limits, or after {} such confirmations); the run at hand: {}", HANG_STORM, CONFIRMED_ENOUGH, what);
+        match crate::common::current_case() {
+            Some((p, case)) => crate::common::hang_exit(&p, &case, &detail),
+            None => crate::common::hang_exit(&property, &serde_json::json!({"mode": "process", "client_input": describe()}).to_string(), &detail),
+        }
+    }
+}
+const PER_REQUEST: Duration = Duration::from_secs(5);
+
+/// number of runs that were repeated alone / that missed the limits again
+pub fn confirmation_counts() -> (usize, usize) {
+    (REPEATED.load(std::sync::atomic::Ordering::Relaxed), CONFIRMED.load(std::sync::atomic::Ordering::Relaxed))
+}
+
+fn confirmed(run: impl Fn(u32) -> ProcOutcome, describe: &dyn Fn() -> Value) -> ProcOutcome {
+    use std::sync::atomic::Ordering::Relaxed;
+    let o = {
+        let _r = GATE.read().unwrap_or_else(|e| e.into_inner());
+        run(1)
+    };
+    if !(o.timed_out || o.unanswered.is_some()) {
+        return o;
+    }
+    if CONFIRMED.load(Relaxed) >= CONFIRMED_ENOUGH {
+        count_hang(&o, describe);
+        return o;
+    }
+    let _w = GATE.write().unwrap_or_else(|e| e.into_inner());
+    REPEATED.fetch_add(1, Relaxed);
+    let o = run(CONFIRM_FACTOR);
+    if o.timed_out || o.unanswered.is_some() {
+        CONFIRMED.fetch_add(1, Relaxed);
+        count_hang(&o, describe);
+    }
+    o
+}
+
+/// Slow client: everything is written in one go (from a thread of its own, the pipe to the
+/// server may fill up as well), stdin is closed, and the output is read only after `delay`.
+pub fn run_slow_reader(bytes: Vec<u8>, delay: Duration, throttle: Option<(usize, Duration)>, limit: Duration) -> ProcOutcome {
+    confirmed(|f| run_slow_reader_once(bytes.clone(), delay, throttle, limit * f), &|| Value::String(String::from_utf8_lossy(&bytes[..bytes.len().min(20_000)]).into_owned()))
+}
+
+/// Lock-step client: every request is followed by a wait for its response; after the last
+/// message stdin is closed. `limit`: time allowed between closing stdin and process exit.
+pub fn run_lockstep(msgs: &[Value], limit: Duration) -> ProcOutcome {
+    confirmed(|f| run_lockstep_once(msgs, limit * f, PER_REQUEST * f), &|| Value::Array(msgs.to_vec()))
+}
+
+/// Pipelined client: writes the chunks one after the other (optionally waiting until the pipe
+/// has been drained by the server between chunks), then closes stdin.
+pub fn run_chunks(chunks: &[Vec<u8>], wait_drained: bool, limit: Duration) -> ProcOutcome {
+    confirmed(|f| run_chunks_once(chunks, wait_drained, limit * f, PER_REQUEST * f), &|| Value::Array(chunks.iter().map(|c| Value::String(String::from_utf8_lossy(&c[..c.len().min(20_000)]).into_owned())).collect()))
 }
